@@ -1,5 +1,5 @@
 #!/usr/bin/env python3
-"""mutsweep.py gen <outdir> [--per-file N] [--seed S]      : write single-edit operator mutants of /repo's library sources
+"""mutsweep.py gen <outdir> [--per-file N] [--seed S] [--src dir,dir]  : write single-edit operator mutants of /repo's library sources
    mutsweep.py run <outdir> [--jobs N] [--tests]            : run every claimed quick check on each mutant (scratch copies)
 
 A blind-spot finder for the rules, not a check: it applies mechanical, single-token mutation operators (comparison
@@ -263,6 +263,8 @@ if __name__ == '__main__':
     a = sys.argv[1:]
     mode, outdir = a[0], a[1]
     opts = dict(zip(a[2::2], a[3::2])) if '--tests' not in a else dict(zip([x for x in a[2:] if x != '--tests'][0::2], [x for x in a[2:] if x != '--tests'][1::2]))
+    if '--src' in opts:
+        SRC_DIRS[:] = opts['--src'].split(',')
     if mode == 'gen':
         gen(outdir, int(opts.get('--per-file', 12)), int(opts.get('--seed', 1)))
     else:
